@@ -219,6 +219,33 @@ impl Session {
                     Err(e) => json!({"err": format!("{:#}", e)}),
                 }
             }
+            "squeeze" => {
+                // leave at most `leave` bytes available to Pool::Query of the shared MemoryBudget (C17)
+                use turdb::memory::Pool;
+                let Some(db) = self.h(op) else { return json!({"err": "no such handle"}) };
+                let b = db.memory_budget();
+                let leave = op["leave"].as_u64().unwrap_or(0) as usize;
+                let mut taken = 0usize;
+                for _ in 0..64 {
+                    let avail = b.available(Pool::Query);
+                    if avail <= leave {
+                        break;
+                    }
+                    let want = avail - leave;
+                    if b.allocate(Pool::Query, want).is_ok() {
+                        taken += want;
+                    } else {
+                        break;
+                    }
+                }
+                json!({"ok": {"type": "squeeze", "n": b.available(Pool::Query), "taken": taken, "limit": b.total_limit()}})
+            }
+            "budget" => {
+                use turdb::memory::Pool;
+                let Some(db) = self.h(op) else { return json!({"err": "no such handle"}) };
+                let b = db.memory_budget();
+                json!({"ok": {"type": "budget", "n": b.total_used(), "query_available": b.available(Pool::Query), "limit": b.total_limit()}})
+            }
             "clone" => {
                 let i = op["h"].as_u64().unwrap() as usize;
                 let c = self.handles[0].as_ref().map(|d| d.clone());
